@@ -88,6 +88,26 @@ pub struct CodeIds {
     /// the pair code stored a second time (another code id, the same code): a migration target and an
     /// alternative `pair_code_id` for the factory configuration
     pub pair_alt: u64,
+    /// a contract that answers the cw20 `TokenInfo` query WITHOUT a `decimals` field (instantiated by the
+    /// factory-only worlds): not a cw20 contract by any reading, whatever else it answers
+    pub odd: u64,
+}
+
+#[derive(Serialize)]
+struct OddTokenInfo {
+    name: String,
+    symbol: String,
+    total_supply: Uint128,
+}
+fn odd_query(_d: Deps, _e: Env, m: cw20::Cw20QueryMsg) -> StdResult<Binary> {
+    match m {
+        cw20::Cw20QueryMsg::TokenInfo {} => to_binary(&OddTokenInfo { name: "odd token".into(), symbol: "ODD".into(), total_supply: Uint128::new(1_000_000) }),
+        cw20::Cw20QueryMsg::Balance { .. } => to_binary(&cw20::BalanceResponse { balance: Uint128::zero() }),
+        _ => Err(StdError::generic_err("odd: unsupported query")),
+    }
+}
+fn code_odd() -> Box<dyn Contract<Empty>> {
+    Box::new(ContractWrapper::new(proxy_execute, proxy_instantiate, odd_query))
 }
 
 fn store_codes(app: &mut App) -> CodeIds {
@@ -98,6 +118,7 @@ fn store_codes(app: &mut App) -> CodeIds {
         cw20: app.store_code(code_cw20()),
         proxy: app.store_code(code_proxy()),
         pair_alt: app.store_code(code_pair()),
+        odd: app.store_code(code_odd()),
     }
 }
 
@@ -194,6 +215,10 @@ pub struct WorldCfg {
     /// token, so that hook swaps and withdrawals can also be delivered through `SendFrom` (spender != owner)
     #[serde(default)]
     pub peer_allowance: bool,
+    /// the factory's chain-level (wasm) admin is an account of its own ("opsadmin") instead of the owner
+    /// that instantiated it
+    #[serde(default)]
+    pub separate_factory_admin: bool,
 }
 
 #[derive(Clone, Debug)]
@@ -220,6 +245,8 @@ pub struct World {
     pub factory: Addr,
     pub router: Addr,
     pub proxy: Addr,
+    /// the account that may migrate the factory (its wasm admin): the owner, or "opsadmin"
+    pub factory_admin: Addr,
     pub natives: Vec<String>,
     pub tokens: Vec<TokenRec>,
     pub pairs: Vec<PairRec>,
@@ -707,6 +734,7 @@ impl World {
             factory: self.factory.clone(),
             router: self.router.clone(),
             proxy: self.proxy.clone(),
+            factory_admin: self.factory_admin.clone(),
             natives: self.natives.clone(),
             tokens: self.tokens.clone(),
             pairs: self.pairs.clone(),
@@ -759,7 +787,7 @@ impl World {
         let codes = store_codes(&mut app);
         let e = |x: anyhow::Error| format!("{:#}", x);
         let factory = app
-            .instantiate_contract(codes.factory, owner.clone(), &haloswap::factory::InstantiateMsg { pair_code_id: codes.pair, token_code_id: codes.cw20 }, &[], "factory", Some(owner.to_string()))
+            .instantiate_contract(codes.factory, owner.clone(), &haloswap::factory::InstantiateMsg { pair_code_id: codes.pair, token_code_id: codes.cw20 }, &[], "factory", Some(if cfg.separate_factory_admin { "opsadmin".to_string() } else { owner.to_string() }))
             .map_err(e)?;
         let router = app
             .instantiate_contract(codes.router, owner.clone(), &haloswap::router::InstantiateMsg { halo_factory: factory.to_string() }, &[], "router", None)
@@ -804,7 +832,8 @@ impl World {
             }
             tokens.push(TokenRec { addr, decimals: *dec });
         }
-        let mut w = World { app, codes, cfg: cfg.clone(), owner, factory, router, proxy, natives, tokens, pairs: vec![], actors, bystanders, native_decimals_now: cfg.native_decimals.clone() };
+        let factory_admin = if cfg.separate_factory_admin { Addr::unchecked("opsadmin") } else { owner.clone() };
+        let mut w = World { app, codes, cfg: cfg.clone(), owner, factory, router, proxy, factory_admin, natives, tokens, pairs: vec![], actors, bystanders, native_decimals_now: cfg.native_decimals.clone() };
         for (k, pc) in cfg.pairs.clone().into_iter().enumerate() {
             w.create_pair(&pc)?;
             if k == 0 && !cfg.staged_decimals.is_empty() {
